@@ -962,3 +962,94 @@ def _near_tie_check(case):
     finally:
         shutil.rmtree(root, ignore_errors=True)
     return Info(nontrivial="tie_at_print_precision" in classes, classes=sorted(set(classes)))
+
+
+# ---------------------------------------------------------------- "best" judged by the training metric (best_is_train=True)
+
+
+@st.composite
+def _best_train_case(draw, tier):
+    n = draw(st.integers(2, 7 if tier == "quick" else 10))
+    pool = [0.25, 0.5, 0.75, 1.0, 1.5, 2.0]
+    return {
+        "train": [draw(st.sampled_from(pool)) for _ in range(n)],
+        "val": [draw(st.sampled_from(pool)) for _ in range(n)],
+        "best_is_train": draw(st.sampled_from([True, True, False])),
+        "restart_after": draw(st.lists(st.booleans(), min_size=n, max_size=n)),
+    }
+
+
+@subcheck("C16", "best_by_training_metric", lambda tier: _best_train_case(tier), quick=200, thorough=3000,
+          doc="crash-free runs with keep_last_and_best_only where the best epoch is judged by the TRAINING metric "
+              "(update_for_epoch(..., best_is_train=True)), training and validation metrics drawn independently: after every "
+              "completed update the state directory holds exactly the files of the last epoch and of the best epoch by that "
+              "metric (earliest on ties), and both load the parameters saved for them - for the running controller and for one "
+              "rebuilt from the files",
+          required_classes=["best_is_train", "train_best_differs_from_val_best", "old_best_replaced"])
+def _best_train_check(case):
+    import os
+    import shutil
+    import tempfile
+    import warnings
+
+    import torch
+    from pydrobert.torch.training import TrainingStateController, TrainingStateParams
+
+    bit = case["best_is_train"]
+    params = TrainingStateParams(keep_last_and_best_only=True, early_stopping_threshold=0.0, reduce_lr_threshold=0.0)
+    root = tempfile.mkdtemp(prefix="vf_")
+    classes = ["best_is_train" if bit else "best_is_val"]
+
+    def fresh():
+        model = torch.nn.Linear(1, 1)
+        return model, torch.optim.SGD(model.parameters(), lr=0.5)
+
+    def make():
+        return TrainingStateController(params, os.path.join(root, "hist.csv"), os.path.join(root, "states"), warn=False)
+
+    def best_of(metrics):
+        b = 0
+        for i, x in enumerate(metrics):
+            if x < metrics[b]:
+                b = i
+        return b + 1
+
+    try:
+        with warnings.catch_warnings():
+            warnings.simplefilter("ignore")
+            ctl = make()
+            model, opt = fresh()
+            ctl.load_model_and_optimizer_for_epoch(model, opt, 0)
+            prev_best = None
+            for i in range(len(case["train"])):
+                e = i + 1
+                with torch.no_grad():
+                    model.weight.fill_(float(e))
+                    model.bias.fill_(float(e))
+                ctl.update_for_epoch(model, opt, case["train"][i], case["val"][i], best_is_train=bit)
+                want_best = best_of((case["train"] if bit else case["val"])[:e])
+                if best_of(case["train"][:e]) != best_of(case["val"][:e]):
+                    classes.append("train_best_differs_from_val_best")
+                if prev_best is not None and want_best != prev_best:
+                    classes.append("old_best_replaced")
+                prev_best = want_best
+                for who, c in (("running controller", ctl), ("controller rebuilt from the files", make())):
+                    got_best = c.get_best_epoch(train_met=bit)
+                    require(got_best == want_best, "%s after epoch %d: best epoch by the %s metric" % (who, e, "training" if bit else "validation"),
+                            got_best, want_best)
+                    have = sorted(os.listdir(os.path.join(root, "states")))
+                    want = sorted({os.path.basename(c.get_model_path_with_info(c.get_info(x))) for x in (e, want_best)}
+                                  | {os.path.basename(c.get_optimizer_path_with_info(c.get_info(x))) for x in (e, want_best)})
+                    require(have == want, "%s after epoch %d: state directory does not hold exactly the last and best epochs' files" % (who, e),
+                            have, want)
+                    for x in (e, want_best):
+                        m2, o2 = fresh()
+                        c.load_model_and_optimizer_for_epoch(m2, o2, x)
+                        require(float(m2.weight) == float(x), "%s: parameters loaded for epoch %d" % (who, x), float(m2.weight), float(x))
+                if case["restart_after"][i]:
+                    ctl = make()
+                    model, opt = fresh()
+                    ctl.load_model_and_optimizer_for_epoch(model, opt, e)
+    finally:
+        shutil.rmtree(root, ignore_errors=True)
+    return Info(nontrivial="old_best_replaced" in classes, classes=sorted(set(classes)))
